@@ -44,7 +44,9 @@ type rowState struct {
 
 type rowsState struct {
 	db     *sql.DB
+	holds  bool // holds a pooled connection of its own until closed
 	vals   []string
+	null   []bool
 	i      int
 	closed bool
 	err    error
@@ -131,8 +133,7 @@ func acquire(s *DBState) {
 }
 
 func release(s *DBState) {
-	s.InUse--
-	Yield()
+	s.InUse-- // no yield after a release (see models.go)
 }
 
 //wsym:replace (*database/sql.DB).SetMaxOpenConns
@@ -180,8 +181,8 @@ func queryRow(s *DBState, staged []dbOp, query string, args []any) *sql.Row {
 		st.err = errDB
 		return r
 	}
-	op, _, cols, whereKey := SQLParse(query)
-	if op != 2 || !whereKey || len(cols) != 1 {
+	op, _, cols, where := SQLParse(query)
+	if op != 2 || where != 1 || len(cols) != 1 {
 		Unsupported("QueryRow with an unrecognised SQL statement")
 	}
 	if len(args) != 1 {
@@ -273,8 +274,9 @@ func RowScan(r *sql.Row, dest ...any) error {
 	return nil
 }
 
-func execStmt(s *DBState, staged *[]dbOp, query string, args []any) error {
-	op, conflict, cols, whereKey := SQLParse(query)
+func execStmt(s *DBState, staged *[]dbOp, query string, args []any) (int64, error) {
+	op, conflict, cols, where := SQLParse(query)
+	whereKey := where >= 1
 	var cur []dbOp
 	if staged != nil {
 		cur = *staged
@@ -292,10 +294,10 @@ func execStmt(s *DBState, staged *[]dbOp, query string, args []any) error {
 			Unsupported("CREATE TABLE inside a transaction")
 		}
 		s.Created = true
-		return nil
+		return 0, nil
 	case 3: // INSERT [OR REPLACE | OR IGNORE] INTO chkpts (cols) VALUES (?...)
 		if !s.Created || len(args) != len(cols) {
-			return errDB
+			return 0, errDB
 		}
 		var key string
 		haveKey := false
@@ -323,19 +325,19 @@ func execStmt(s *DBState, staged *[]dbOp, query string, args []any) error {
 		if exists {
 			switch conflict {
 			case 0:
-				return errDB // UNIQUE constraint failed
+				return 0, errDB // UNIQUE constraint failed
 			case 2:
-				return nil // OR IGNORE
+				return 0, nil // OR IGNORE
 			}
 		}
 		put(key, row)
-		return nil
+		return 1, nil
 	case 4: // UPDATE chkpts SET col = ? ... WHERE logID = ?
-		if !s.Created || !whereKey || len(args) != len(cols)+1 {
-			if !whereKey {
-				Unsupported("UPDATE without WHERE logID = ?")
+		if !s.Created || where != 1 || len(args) != len(cols)+1 {
+			if where != 1 {
+				Unsupported("UPDATE without a plain WHERE logID = ?")
 			}
-			return errDB
+			return 0, errDB
 		}
 		key, ok := args[len(cols)].(string)
 		if !ok {
@@ -343,7 +345,7 @@ func execStmt(s *DBState, staged *[]dbOp, query string, args []any) error {
 		}
 		row, exists := lookupIn(s, cur, key)
 		if !exists {
-			return nil // no row matches: nothing happens, no error
+			return 0, nil // no row matches: nothing happens, no error
 		}
 		for i, c := range cols {
 			switch c {
@@ -358,27 +360,41 @@ func execStmt(s *DBState, staged *[]dbOp, query string, args []any) error {
 			}
 		}
 		put(key, row)
-		return nil
+		return 1, nil
 	case 5: // DELETE FROM chkpts WHERE logID = ?
 		if !s.Created {
-			return errDB
+			return 0, errDB
 		}
-		if !whereKey || len(args) != 1 {
+		if !whereKey || len(args) != where {
 			Unsupported("DELETE without WHERE logID = ?")
 		}
 		key, ok := args[0].(string)
 		if !ok {
 			Unsupported("DELETE with a non-string key")
 		}
+		row, exists := lookupIn(s, cur, key)
+		if !exists {
+			return 0, nil
+		}
+		if where == 2 {
+			// ... AND chkpt = ?  (NULL never compares equal)
+			want, ok := args[1].([]byte)
+			if !ok {
+				Unsupported("DELETE ... AND chkpt = ? with a non-[]byte value")
+			}
+			if row.Chkpt == nil || want == nil || !Eq(row.Chkpt, want) {
+				return 0, nil
+			}
+		}
 		if staged != nil {
 			*staged = append(*staged, dbOp{del: true, key: key})
 		} else {
 			delete(s.Table, key)
 		}
-		return nil
+		return 1, nil
 	}
 	Unsupported("Exec with an unrecognised SQL statement")
-	return nil
+	return 0, nil
 }
 
 //wsym:replace (*database/sql.Tx).Exec
@@ -393,10 +409,13 @@ func TxExec(tx *sql.Tx, query string, args ...any) (sql.Result, error) {
 		boundary()
 		return nil, errDB
 	}
-	err := execStmt(DB(t.db), &t.staged, query, args)
+	n, err := execStmt(DB(t.db), &t.staged, query, args)
 	Log(Ev{K: "db.tx.exec"})
 	boundary()
-	return nil, err
+	if err != nil {
+		return nil, err
+	}
+	return &SQLResult{N: n}, nil
 }
 
 //wsym:replace (*database/sql.DB).Exec
@@ -409,11 +428,14 @@ func DBExec(db *sql.DB, query string, args ...any) (sql.Result, error) {
 		boundary()
 		return nil, errDB
 	}
-	err := execStmt(s, nil, query, args)
+	n, err := execStmt(s, nil, query, args)
 	release(s)
 	Log(Ev{K: "db.exec"})
 	boundary()
-	return nil, err
+	if err != nil {
+		return nil, err
+	}
+	return &SQLResult{N: n}, nil
 }
 
 //wsym:replace (*database/sql.Tx).Commit
@@ -467,6 +489,51 @@ func TxRollback(tx *sql.Tx) error {
 	return nil
 }
 
+// rowsFor evaluates a SELECT of one column, with or without WHERE logID = ?, into a row set.
+func rowsFor(s *DBState, staged []dbOp, query string, args []any) (*rowsState, bool) {
+	op, _, cols, where := SQLParse(query)
+	if op != 2 || len(cols) != 1 || where == 2 {
+		Unsupported("Query with an unrecognised SQL statement")
+	}
+	whereKey := where == 1
+	if !s.Created {
+		return nil, false
+	}
+	st := &rowsState{}
+	if whereKey {
+		if len(args) != 1 {
+			return nil, false
+		}
+		key, ok := args[0].(string)
+		if !ok {
+			Unsupported("SELECT with a non-string key")
+		}
+		row, found := lookupIn(s, staged, key)
+		if found {
+			if cols[0] == colLogID {
+				st.vals = append(st.vals, key)
+				st.null = append(st.null, false)
+			} else if cols[0] == colChkpt {
+				st.vals = append(st.vals, string(row.Chkpt))
+				st.null = append(st.null, row.Chkpt == nil)
+			} else {
+				st.vals = append(st.vals, "")
+				st.null = append(st.null, true)
+			}
+		}
+		return st, true
+	}
+	if cols[0] != colLogID {
+		Unsupported("unfiltered SELECT of a column other than logID")
+	}
+	for k := range s.Table {
+		st.vals = append(st.vals, k)
+		st.null = append(st.null, false)
+	}
+	// (rows staged in an open transaction are not listed: the repository never lists inside one)
+	return st, true
+}
+
 //wsym:replace (*database/sql.DB).Query
 func DBQuery(db *sql.DB, query string, args ...any) (*sql.Rows, error) {
 	s := DB(db)
@@ -477,20 +544,40 @@ func DBQuery(db *sql.DB, query string, args ...any) (*sql.Rows, error) {
 		boundary()
 		return nil, errDB
 	}
-	if op, _, cols, whereKey := SQLParse(query); op != 2 || whereKey || len(cols) != 1 || cols[0] != colLogID {
-		Unsupported("Query with an unrecognised SQL statement")
-	}
-	if !s.Created {
+	st, ok := rowsFor(s, nil, query, args)
+	if !ok {
 		release(s)
 		boundary()
 		return nil, errDB
 	}
+	st.db, st.holds = db, true
 	rs := &sql.Rows{}
-	st := &rowsState{db: db}
-	for k := range s.Table {
-		st.vals = append(st.vals, k)
-	}
 	rowsS[rs] = st
+	boundary()
+	return rs, nil
+}
+
+//wsym:replace (*database/sql.Tx).Query
+func TxQuery(tx *sql.Tx, query string, args ...any) (*sql.Rows, error) {
+	t := txs[tx]
+	boundary()
+	if t.done {
+		boundary()
+		return nil, sql.ErrTxDone
+	}
+	if fault("query") {
+		boundary()
+		return nil, errDB
+	}
+	st, ok := rowsFor(DB(t.db), t.staged, query, args)
+	if !ok {
+		boundary()
+		return nil, errDB
+	}
+	st.db = t.db // the transaction's own connection: nothing extra is held
+	rs := &sql.Rows{}
+	rowsS[rs] = st
+	Log(Ev{K: "db.tx.query"})
 	boundary()
 	return rs, nil
 }
@@ -520,11 +607,19 @@ func RowsScan(rs *sql.Rows, dest ...any) error {
 	if st.closed || st.i == 0 || len(dest) != 1 {
 		return errDB
 	}
+	isNull := st.null[st.i-1]
 	switch d := dest[0].(type) {
 	case *string:
+		if isNull {
+			return errDB
+		}
 		*d = st.vals[st.i-1]
 	case *[]byte:
-		*d = []byte(st.vals[st.i-1])
+		if isNull {
+			*d = nil
+		} else {
+			*d = []byte(st.vals[st.i-1])
+		}
 	default:
 		Unsupported("Rows.Scan into an unsupported destination type")
 	}
@@ -539,7 +634,15 @@ func RowsClose(rs *sql.Rows) error {
 	st := rowsS[rs]
 	if !st.closed {
 		st.closed = true
-		release(DB(st.db))
+		if st.holds {
+			release(DB(st.db))
+		}
 	}
 	return nil
 }
+
+// SQLResult models sql.Result.
+type SQLResult struct{ N int64 }
+
+func (r *SQLResult) LastInsertId() (int64, error) { return 0, nil }
+func (r *SQLResult) RowsAffected() (int64, error) { return r.N, nil }
